@@ -30,6 +30,8 @@ class TlcResult:
         self.coverage = {}         # action name -> (distinct, generated)
         self.stdout = ""
         self.printed = []          # PrintT output lines
+        self.simulated = False     # random simulation bounded by time
+        self.traces = 0
 
     def summary(self):
         return {
@@ -162,7 +164,7 @@ def run_tlc(module, cfg, name, workers=8, timeout=600, simulate=None, env=None,
         r.violation = "postcondition"
     if r.violation:
         r.trace = parse_trace(out)
-    if r.error is None and not r.violation:
+    if r.error is None and not r.violation and not getattr(r, "simulated", False):
         if "Model checking completed. No error has been found." in out or \
            (simulate and p.returncode == 0):
             r.ok = True
